@@ -1,8 +1,94 @@
+import DeapModel.Core.Selection
 import Driver.Proto
-/-! Protocol handler for C06 (stub until the model is built). -/
+/-!
+Protocol handler for C06 (selection operators).
+
+Populations travel as the `;`-separated list of the individuals' weighted-value tuples
+(`fitness.wvalues`, exact ratios); sizes / crowding distances as parallel `,`-lists.  The tape is
+the rest of the line, one token per recorded `random.*` call:
+`c:<i>` choice, `s:<i,j,…>` sample, `p:<i,j,…>` shuffle, `r:<q>` random()/uniform draw.
+Answers: the selected population indices, then the number of unread tape entries; `none` when
+the model has no result (bad tape / Python exception).
+-/
 namespace DriverC06
+open Proto Selection
+
+def parseDraw (s : String) : Option Draw :=
+  match s.splitOn ":" with
+  | ["c", x] => (parseNat x).map Draw.choice
+  | ["s", x] => (parseList parseNat x).map Draw.sample
+  | ["p", x] => (parseList parseNat x).map Draw.shuffle
+  | ["r", x] => (parseRat x).map Draw.random
+  | _ => none
+
+def parseTape (l : List String) : Option Tape := l.mapM parseDraw
+
+def mkPop (wvs : String) : Option Pop := (parseList2 parseRat wvs).map (List.map (fun v => ({ wv := v } : Ind)))
+
+def mkPopSized (wvs sizes : String) : Option Pop := do
+  let v ← parseList2 parseRat wvs
+  let s ← parseList parseNat sizes
+  if v.length = s.length then some (List.zipWith (fun a b => ({ wv := a, size := b } : Ind)) v s) else none
+
+def mkPopCd (wvs cds : String) : Option Pop := do
+  let v ← parseList2 parseRat wvs
+  let c ← parseList parseRat cds
+  if v.length = c.length then some (List.zipWith (fun a b => ({ wv := a, cd := b } : Ind)) v c) else none
+
+def parseRule (s : String) : Option Rule :=
+  if s = "exact" then some Rule.exact
+  else if s = "auto" then some Rule.auto
+  else match s.splitOn ":" with
+    | ["eps", x] => (parseRat x).map Rule.eps
+    | _ => none
+
+def showRes : Option (List Nat × Tape) → String
+  | none => "none"
+  | some (l, t) => showList toString l ++ " " ++ toString t.length
 
 def handle : List String → String
+  | ["best", ps, ks] =>
+    match (do let p ← mkPop ps; let k ← parseNat ks; pure (p, k)) with
+    | some (p, k) => showList toString (selBest p k)
+    | none => "bad-op"
+  | ["worst", ps, ks] =>
+    match (do let p ← mkPop ps; let k ← parseNat ks; pure (p, k)) with
+    | some (p, k) => showList toString (selWorst p k)
+    | none => "bad-op"
+  | "random" :: ns :: ks :: tape =>
+    match (do let n ← parseNat ns; let k ← parseNat ks; let t ← parseTape tape; pure (n, k, t)) with
+    | some (n, k, t) => showRes (selRandom n k t)
+    | none => "bad-op"
+  | "tourn" :: ps :: ks :: ts :: tape =>
+    match (do let p ← mkPop ps; let k ← parseNat ks; let s ← parseNat ts; let t ← parseTape tape
+              pure (p, k, s, t)) with
+    | some (p, k, s, t) => showRes (selTournament p k s t)
+    | none => "bad-op"
+  | "roulette" :: ws :: ps :: ks :: tape =>
+    match (do let w ← parseList parseRat ws; let p ← mkPop ps; let k ← parseNat ks
+              let t ← parseTape tape; pure (w, p, k, t)) with
+    | some (w, p, k, t) => showRes (selRoulette w p k t)
+    | none => "bad-op"
+  | "sus" :: ws :: ps :: ks :: tape =>
+    match (do let w ← parseList parseRat ws; let p ← mkPop ps; let k ← parseNat ks
+              let t ← parseTape tape; pure (w, p, k, t)) with
+    | some (w, p, k, t) => showRes (selSUS w p k t)
+    | none => "bad-op"
+  | "dtourn" :: ps :: szs :: ks :: fss :: pss :: ffs :: tape =>
+    match (do let p ← mkPopSized ps szs; let k ← parseNat ks; let fs ← parseNat fss
+              let par ← parseRat pss; let ff ← parseBool ffs; let t ← parseTape tape
+              pure (p, k, fs, par, ff, t)) with
+    | some (p, k, fs, par, ff, t) => showRes (selDoubleTournament p k fs par ff t)
+    | none => "bad-op"
+  | "lex" :: rs :: ws :: ps :: ks :: tape =>
+    match (do let r ← parseRule rs; let w ← parseList parseRat ws; let p ← mkPop ps
+              let k ← parseNat ks; let t ← parseTape tape; pure (r, w, p, k, t)) with
+    | some (r, w, p, k, t) => showRes (selLexicaseWith r w p k t)
+    | none => "bad-op"
+  | "dcd" :: ps :: cds :: ks :: tape =>
+    match (do let p ← mkPopCd ps cds; let k ← parseNat ks; let t ← parseTape tape; pure (p, k, t)) with
+    | some (p, k, t) => showRes (selTournamentDCD p k t)
+    | none => "bad-op"
   | _ => "bad-op"
 
 end DriverC06
